@@ -153,6 +153,8 @@ def sanitize_index(ind):
     if ind is None:
         return None
     if isinstance(ind, slice):
+        if ind.step is not None and _sanitize_index_element(ind.step) == 0:
+            raise ValueError("slice step cannot be zero")
         return slice(
             _sanitize_index_element(ind.start),
             _sanitize_index_element(ind.stop),
